@@ -185,8 +185,18 @@ def crash_signature(r):
     raw, idx = r["raw"], r["index"]
     ev = raw[idx] if 0 <= idx < len(raw) else {}
     kind, t = ev.get("ev", "?"), ev.get("t", "")
+    # a store only the crashed transaction created (nobody else's NewBtree named it before the crash)
+    victim = next((e.get("t") for e in raw if e.get("ev") == "Crash"), None)
+    ci = next((i for i, e in enumerate(raw) if e.get("ev") == "Crash"), len(raw))
+    s0 = ev.get("s")
+    created_by_victim = bool(s0) and any(e.get("ev") == "NewStore" and e.get("t") == victim and e.get("s") == s0 for e in raw[:ci]) \
+        and not any(e.get("ev") == "NewStore" and e.get("t") != victim and e.get("s") == s0 for e in raw[:ci])
+    empty_view = (kind == "Op" and ev.get("op") in ("Count", "Scan") and not ev.get("n") and not ev.get("items")) or \
+                 (kind == "Observe" and ev.get("exists") and not ev.get("items") and not ev.get("count"))
     if kind == "Logs":
         sym = "logs-left-after-recovery"
+    elif created_by_victim and empty_view and (kind == "Observe" or t.startswith("m") or t.startswith("n")):
+        sym = "created-store-survives-empty"
     elif kind == "Op" and (t.startswith("m") or t.startswith("n")):
         s = ev.get("s")
         mine = [e for e in raw if e.get("t") == t and e.get("s") == s and e.get("ev") == "Op"]
